@@ -33,7 +33,7 @@ type c12Spec struct {
 	Sched string `json:"sched,omitempty"` // none | perturb | reverse
 }
 
-var c12Shapes = []string{"edited", "periodic", "random", "reversed", "new<<old", "old<<new", "new-empty", "old-empty", "old<parts", "new<parts", "big-edited"}
+var c12Shapes = []string{"ctx-reuse", "edited", "periodic", "random", "reversed", "new<<old", "old<<new", "new-empty", "old-empty", "old<parts", "new<parts", "big-edited"}
 
 func c12Cases(tier string, seed uint64, flavor string) []lib.Case {
 	var cases []lib.Case
@@ -349,6 +349,10 @@ func c12Rand(s c12Spec, res *lib.Result) {
 		old = mk(size(max))
 		nw = mk(r.Range(1, 16))
 	}
+	if s.Shape == "ctx-reuse" {
+		c12Reuse(s, r, res)
+		return
+	}
 	prev := runtime.GOMAXPROCS(s.Procs)
 	defer runtime.GOMAXPROCS(prev)
 	sc := &c12Sched{mode: s.Sched, rng: lib.NewRng(lib.Mix(s.Seed, 5)), ended: map[int64]bool{}}
@@ -374,6 +378,52 @@ func c12Rand(s c12Spec, res *lib.Result) {
 	if s.Seed%11 == 0 {
 		res.Sample = map[string]interface{}{"mode": "rand", "shape": s.Shape, "oldLen": len(old), "newLen": len(nw), "partitions": s.P, "gomaxprocs": s.Procs, "sched": s.Sched, "hookEvents": len(sc.sig)}
 	}
+}
+
+// c12Reuse: ONE DiffContext / PatchContext reused for a sequence of related (old,new) pairs, the way
+// the optimizer reuses its bsdiff context for every file of a build: old sizes shrink, and later new
+// files contain runs that only earlier (longer) old files held - state left over from an earlier
+// diff must not leak into a later one.
+func c12Reuse(s c12Spec, r *lib.Rng, res *lib.Result) {
+	m := &c12Monitor{dctx: &bsdiff.DiffContext{}, pctx: bsdiff.NewPatchContext()}
+	base := lib.RandomBytes(int64(r.PickInt([]int{3000, 40000, 300000})), r.Uint64())
+	size := len(base)
+	for step := 0; step < 5; step++ {
+		old := base[:size]
+		var nw []byte
+		switch r.Intn(3) {
+		case 0: // a run the current old does not have but an earlier, longer old had; at the start of new
+			if size < len(base) {
+				st := r.Range(size, len(base)-1)
+				en := st + r.Range(9, 400)
+				if en > len(base) {
+					en = len(base)
+				}
+				nw = append(nw, base[st:en]...)
+			}
+			nw = append(nw, old[:len(old)/2]...)
+		case 1: // such a run in the middle
+			nw = append(nw, old[:len(old)/3]...)
+			nw = append(nw, base[len(base)-r.Range(9, min(400, len(base))):]...)
+			nw = append(nw, old[len(old)/3:]...)
+		default:
+			nw = append(append([]byte(nil), old...), lib.RandomBytes(int64(r.Range(1, 50)), r.Uint64())...)
+		}
+		key, detail, rs := m.check(old, nw, s.P, true)
+		res.Add("random_executions", 1)
+		res.Add("context_reuse_steps", 1)
+		res.Add("midseries_resumes", int64(rs))
+		if key != "" {
+			res.Violate(key, fmt.Sprintf("shape=ctx-reuse step=%d |old|=%d |new|=%d (longest earlier old %d) partitions=%d seed=%d", step, len(old), len(nw), len(base), s.P, s.Seed), detail)
+			return
+		}
+		size = size * r.Range(30, 70) / 100
+		if size < 10 {
+			break
+		}
+	}
+	res.NonTrivial = true
+	res.Feat = []string{fmt.Sprintf("rand|ctx-reuse|p=%d|base=%d", s.P, len(base))}
 }
 
 // c12Lru: lrufile against a plain in-memory reader, 50 random programs per case.
